@@ -216,8 +216,8 @@ except Exception as e:
     return dict(reproduced='REPRODUCED' in out and 'NOT-REPRODUCED' not in out, stdout=out[-2000:], stderr=err[-2000:], script=body)
 
 
-def main(tier='quick', seed=0):
-    t0 = time.time()
+def deductive_records(prop=PROP):
+    """the contract obligations of depccg/cat.py (used by C13 itself and by every check whose proofs call Category / Feature methods through these contracts)"""
     w, I, table, impls = setup()
     jobs = [('contract', c.name) for c in impls] + [('lemma', n) for n in lemmas(w)] + [('algebra', 'xor')] + [('structural', 'hash')]
     results = engine.run_jobs('props.c13', jobs)
@@ -230,6 +230,16 @@ def main(tier='quick', seed=0):
         lib.update(r.get('lib', []))
         inlined.update(r.get('inlined', []))
         paths += r.get('paths', 0)
+    if prop != PROP:
+        for x in records:
+            if x['name'].startswith(PROP + '/'):
+                x['name'] = prop + '/' + x['name'][len(PROP) + 1:]
+    return records, errors, lib, inlined, paths, impls, w
+
+
+def main(tier='quick', seed=0):
+    t0 = time.time()
+    records, errors, lib, inlined, paths, impls, w = deductive_records()
     assumptions = [
         'CPython semantics of the encoded subset (see vc/pyvc.py docstring); unbounded ints; str as SMT-LIB strings',
         'dataclasses: with frozen=True, eq=True and a class-level __eq__, the hand-written __eq__ is kept and __hash__ is generated from the compared fields; hash of str/None/tuple is a function of the value',
